@@ -430,7 +430,7 @@ func (term *TermInvoke) Operands() []*value.Value {
 	ops := make([]*value.Value, 0, 1+len(term.Args)+1+1)
 	ops = append(ops, &term.Invokee)
 	for i := range term.Args {
-		ops = append(ops, &term.Args[i])
+		ops = append(ops, argOperand(&term.Args[i]))
 	}
 	ops = append(ops, &term.NormalRetTarget)
 	ops = append(ops, &term.ExceptionRetTarget)
@@ -603,7 +603,7 @@ func (term *TermCallBr) Operands() []*value.Value {
 	ops := make([]*value.Value, 0, 1+len(term.Args)+1+len(term.OtherRetTargets))
 	ops = append(ops, &term.Callee)
 	for i := range term.Args {
-		ops = append(ops, &term.Args[i])
+		ops = append(ops, argOperand(&term.Args[i]))
 	}
 	ops = append(ops, &term.NormalRetTarget)
 	for i := range term.OtherRetTargets {
